@@ -123,6 +123,13 @@ def booking_guard_rule(ctx: Ctx, rid: str):
 
 
 def run_extra(ctx: Ctx):
+    # ---------------------------------------------------------------- R03.13 booking records identify the task by identity
+    from .common import local_id_identity_rule
+    local_id_identity_rule(ctx, "R03.13", ("core/resource_scenario.py", "core/task_scenario.py"),
+                           "the time recorded for one task is then overwritten by (or credited to) a same-named task of another container")
+    # ---------------------------------------------------------------- R03.14 seconds needed in the final slot (= C06 R06.1 / C01 R01.6)
+    from .c06 import precise_end_rules
+    precise_end_rules(ctx, "R03.14")
     # ---------------------------------------------------------------- R03.12 answers never come from state that outlives the question
     from .common import process_state_rule
     process_state_rule(ctx, "R03.12", [ctx.repo.func("Project.schedule")],
